@@ -42,8 +42,10 @@ RULE = ('stratified by case index: operation {slice, dedrift, dedrift of a const
         'object compared element-wise; distinct = distinct case descriptor')
 ASSUMPTIONS = [
     'slice bounds are 0 <= l < r <= fchans (an empty or reversed slice is not a frame)',
-    'a derived frame recomputes its axis from its first channel: labels may differ from the parent\'s by <= 4 ulp(fmax) '
-    '(one rounding for the anchor, one for the step product, one for the sum, one spare); a one-channel error is df >> 4 ulp',
+    'a derived frame recomputes its axis from its first channel: labels may differ from the parent\'s by <= 8 ulp(fmax) '
+    '(each linspace label is within ~2 ulp of its exact grid: <= 1 ulp from the rounded end point spread over the steps, 1/2 for '
+    'the step product, 1/2 for the sum; the child stacks its own 2 on an anchor that already carries the parent\'s 2, and is '
+    'compared with a parent label carrying 2 more; observed <= 2); a one-channel error is df >= 1e-2 Hz >> 8 ulp(5e10 Hz) = 6e-5 Hz',
     'round(x) with x = |d| i dt / df evaluated in extended precision: when x is within 1e-9 max(1, x) of k + 1/2 either '
     'neighbour is accepted (the property does not fix the tie rule and x itself carries rounding error)',
     '"common band": width fchans - round(|d| (tchans-1) dt/df) (last row) or fchans - round(|d| tchans dt/df) (the frame\'s '
@@ -64,7 +66,7 @@ ASSUMPTIONS = [
 
 SPECIAL_F = [1, 2, 3, 4, 5, 7, 8, 16, 64, 100, 255, 256, 257, 1000, 1024, 2048]
 SPECIAL_T = [1, 2, 3, 4, 8, 16, 32, 64]
-FS_ULPS = 4
+FS_ULPS = 8
 TIE = 1e-9
 
 
